@@ -2,7 +2,7 @@
 # Copyright 2021 BBC
 # SPDX-License-Identifier: Apache-2.0
 
-from typing import Optional, Tuple
+from typing import List, Optional, Tuple
 from xml.etree.ElementTree import Element
 
 
@@ -37,6 +37,19 @@ def append_node(parent, node):
     Append *node* to *parent*.
     """
     parent.append(node)
+
+
+def move_nodes(parent: Element, nodes: List[Element], target: Optional[Element]):
+    """
+    Move *nodes* (distinct children of *parent*, none of them *target*) so that
+    they appear, in the given order, immediately before *target*, or at the end
+    of *parent* if *target* is ``None``.
+    """
+    for node in nodes:
+        parent.remove(node)
+    index = len(parent) if target is None else list(parent).index(target)
+    for i, node in enumerate(nodes, start=index):
+        parent.insert(i, node)
 
 
 def find_child(
